@@ -18,7 +18,7 @@ use std::time::{Duration, Instant};
 use vq_bounded::{done, fail};
 
 /// A call that the property obliges to return is reported as a deadlock after this long.
-const WATCHDOG: Duration = Duration::from_secs(20);
+const WATCHDOG: Duration = Duration::from_secs(60);
 /// Margin for reaching an intermediate state (a task has started, a thread is about to call
 /// submit); the instance is skipped when it is exceeded.
 const SETUP: Duration = Duration::from_secs(5);
